@@ -1,10 +1,6 @@
 package padding
 
-import (
-	"errors"
-
-	"github.com/emmansun/gmsm/internal/byteorder"
-)
+import "errors"
 
 // The padded data comprises (in this order):
 //
@@ -23,13 +19,14 @@ func (pad iso9797M3Padding) BlockSize() int {
 
 func (pad iso9797M3Padding) Pad(src []byte) []byte {
 	srcLen := len(src)
-	overhead := pad.BlockSize() - srcLen%pad.BlockSize()
-	if overhead == pad.BlockSize() && srcLen > 0 {
+	blockSize := pad.BlockSize()
+	overhead := blockSize - srcLen%blockSize
+	if overhead == blockSize && srcLen > 0 {
 		overhead = 0
 	}
 
-	var head, tail []byte
-	total := srcLen + overhead + pad.BlockSize()
+	var head []byte
+	total := srcLen + overhead + blockSize
 
 	if total <= 0 {
 		panic("padding: total length overflow")
@@ -41,36 +38,53 @@ func (pad iso9797M3Padding) Pad(src []byte) []byte {
 		head = make([]byte, total)
 	}
 
-	tail = head[srcLen+pad.BlockSize():]
-	clear(head[:pad.BlockSize()])
-	copy(head[pad.BlockSize():], src)
-	if overhead > 0 {
-		clear(tail)
+	// move the data first: head may share its backing array with src
+	copy(head[blockSize:], src)
+	clear(head[:blockSize])
+	clear(head[blockSize+srcLen:])
+	// the length block holds the bit length of the data, big-endian and right-aligned
+	bitLen := uint64(srcLen) * 8
+	for i := blockSize - 1; i >= 0 && bitLen > 0; i-- {
+		head[i] = byte(bitLen)
+		bitLen >>= 8
 	}
-	byteorder.BEPutUint64(head[8:], uint64(srcLen*8))
+	if bitLen > 0 {
+		panic("padding: message too long for the block size")
+	}
 	return head
 }
 
 // Unpad decrypted plaintext, non-constant-time
 func (pad iso9797M3Padding) Unpad(src []byte) ([]byte, error) {
 	srcLen := len(src)
-	if srcLen < 2*pad.BlockSize() || srcLen%pad.BlockSize() != 0 {
+	blockSize := pad.BlockSize()
+	if srcLen < 2*blockSize || srcLen%blockSize != 0 {
 		return nil, errors.New("padding: invalid src length")
 	}
-	for _, b := range src[:8] {
-		if b != 0 {
-			return nil, errors.New("padding: invalid padding header")
+	var bitLen uint64
+	for i, b := range src[:blockSize] {
+		if i < blockSize-8 {
+			if b != 0 {
+				return nil, errors.New("padding: invalid padding header")
+			}
+			continue
 		}
+		bitLen = bitLen<<8 | uint64(b)
 	}
-	dstLen := int(byteorder.BEUint64(src[8:pad.BlockSize()])/8)
-	if dstLen < 0 || dstLen > srcLen-pad.BlockSize() {
+	dataLen := uint64(srcLen - blockSize)
+	dstLen := bitLen / 8
+	if bitLen%8 != 0 || dstLen > dataLen {
 		return nil, errors.New("padding: invalid padding header")
 	}
-	padded := src[pad.BlockSize()+dstLen:]
+	// the data is padded with as few zero bytes as necessary (one block for empty data)
+	if (dstLen == 0 && dataLen != uint64(blockSize)) || (dstLen > 0 && dataLen-dstLen >= uint64(blockSize)) {
+		return nil, errors.New("padding: invalid padding header")
+	}
+	padded := src[blockSize+int(dstLen):]
 	for _, b := range padded {
 		if b != 0 {
 			return nil, errors.New("padding: invalid padding bytes")
 		}
 	}
-	return src[pad.BlockSize() : pad.BlockSize()+dstLen], nil
+	return src[blockSize : blockSize+int(dstLen)], nil
 }
